@@ -225,7 +225,95 @@ def gen_c08():
     return rel
 
 
-GROUPS = {"C17": gen_c17, "C16": gen_c16, "C06": gen_c06, "C08": gen_c08}
+# ------------------------------------------------------------------------------------------ C20: the backup protocol's operations
+
+def gen_c20():
+    rel = "Gen/C20/BackupOps.v"
+    try:
+        toks = R.lex(open(os.path.join(common.REPO, "src/emitter/files_with_backup.rs")).read())
+        lo, hi = R.find_impl(toks, "Emitter for FilesWithBackupEmitter")
+        i = R.find_fn(toks, lo, hi, "emit_formatted_file")
+        # the guarded block:  if original_text != formatted_text { ... }
+        j = i
+        while not ([t for _, t in toks[j:j + 4]] == ["if", "original_text", "!=", "formatted_text"]):
+            j += 1
+            if j >= hi:
+                raise R.Unsupported("no `if original_text != formatted_text` guard")
+        b = j + 4
+        e = R.find_block(toks, b)
+        body = toks[b + 1:e - 1]
+        # drop the cfg(rustfmt_verif) crash-point statements:  # [ cfg ( rustfmt_verif ) ] crate :: verif_hooks :: crash_point ( .. ) ? ;
+        flat, k = [], 0
+        while k < len(body):
+            if body[k][1] == "#" and [t for _, t in body[k + 1:k + 7]] == ["[", "cfg", "(", "rustfmt_verif", ")", "]"]:
+                k += 7
+                while body[k][1] != ";":
+                    k += 1
+                k += 1
+                continue
+            flat.append(body[k][1])
+            k += 1
+        names = {"tmp_name": "(tmp_of f)", "bk_name": "(bk_of f)", "filename": "f"}
+        ops, k = [], 0
+        # after the `let (tmp_name, bk_name) = ...;` binding: every statement must be one of the known file-system calls
+        while k < len(flat) and not (flat[k] == "let" and flat[k + 1] == "(" and flat[k + 2] == "tmp_name"):
+            k += 1
+        if k >= len(flat):
+            raise R.Unsupported("no `let (tmp_name, bk_name)` binding")
+        d = 0
+        while not (flat[k] == ";" and d == 0):
+            d += flat[k] in ("(", "{", "[")
+            d -= flat[k] in (")", "}", "]")
+            k += 1
+        k += 1
+        rest = flat[k:]
+        stmts, cur, d = [], [], 0
+        for t in rest:
+            d += t in ("(", "{", "[")
+            d -= t in (")", "}", "]")
+            cur.append(t)
+            if t == ";" and d == 0:
+                stmts.append(cur)
+                cur = []
+        if cur:
+            raise R.Unsupported("trailing tokens in the guarded block: %r" % cur[:8])
+
+        def arg(ts):
+            ts = [x for x in ts if x not in ("&",)]
+            if len(ts) == 1 and ts[0] in names:
+                return names[ts[0]]
+            raise R.Unsupported("argument %r of a file-system call" % (ts,))
+        for st in stmts:
+            txt = " ".join(st)
+            ignore = st[:3] == ["let", "_", "="]
+            if ignore:
+                st = st[3:]
+            if st[:4] == ["fs", "::", "remove_file", "("] and st[-2:] == [")", ";"] and ignore:
+                ops.append("Remove %s" % arg(st[4:-2]))
+            elif st[:4] == ["fs", "::", "write", "("] and st[-3:] == [")", "?", ";"] and not ignore:
+                a = st[4:-3]
+                c = a.index(",")
+                if a[c + 1:] != ["formatted_text"]:
+                    raise R.Unsupported("fs::write of %r" % (a[c + 1:],))
+                ops.append("Write %s fmt" % arg(a[:c]))
+            elif st[:4] == ["fs", "::", "rename", "("] and st[-3:] == [")", "?", ";"] and not ignore:
+                a = st[4:-3]
+                c = a.index(",")
+                ops.append("Rename %s %s" % (arg(a[:c]), arg(a[c + 1:])))
+            else:
+                raise R.Unsupported("statement in the backup protocol: %s" % txt[:120])
+        out = [HEADER % (rel, "src/emitter/files_with_backup.rs"), "From V Require Import Base.Text Base.Tie C20.Model.", "Open Scope N_scope.", "",
+               "(* the file-system calls of FilesWithBackupEmitter::emit_formatted_file, in program order, inside `if original_text != formatted_text` *)",
+               "Definition g_backup_ops (tmp_of bk_of : path -> path) (f : path) (fmt : text) : list op :=\n  [%s].\n" % "; ".join(ops)]
+        out.append(_theorem("tie_backup_ops", "forall tmp_of bk_of f orig fmt, eqb_text orig fmt = false -> backup_ops tmp_of bk_of f orig fmt = g_backup_ops tmp_of bk_of f fmt", [],
+                            "intros tmp_of bk_of f orig fmt H. unfold backup_ops, g_backup_ops. rewrite H. reflexivity."))
+        _write(rel, "\n".join(out))
+    except (R.Unsupported, AssertionError, KeyError, IndexError, ValueError) as e:
+        _failed(rel, "backup_ops", e)
+    return rel
+
+
+GROUPS = {"C20": gen_c20, "C17": gen_c17, "C16": gen_c16, "C06": gen_c06, "C08": gen_c08}
 
 
 def gen_all():
